@@ -120,6 +120,21 @@ pub fn gen_exec_scenario(id: &str, run_seed: u64) -> Result<Scenario, String> {
     let mut used: Vec<(usize, u32)> = vec![];
     let mut added_probe_imports: Vec<u32> = vec![];
     let mut n_added_funcs = 0u32;
+    // one history in four first replaces the host import `helper` by a built body with the same
+    // behaviour; later sites may then instrument that function too (only behaviour is judged there)
+    let helper_replaced = rng.chance(1, 4);
+    if helper_replaced {
+        clients[0].push(Op::ReplaceImport {
+            imp: F_HELPER,
+            params: vec![crate::ins::VT::I32, crate::ins::VT::I32],
+            results: vec![crate::ins::VT::I32],
+            locals: vec![],
+            body: crate::progen::helper_body(),
+            tag: None,
+            magic: crate::progen::HELPER_MAGIC,
+        });
+        schedule.push(0);
+    }
     for _ in 0..n_ops {
         let c = rng.below(n_clients);
         if p.edits && rng.chance(1, 6) {
@@ -161,6 +176,31 @@ pub fn gen_exec_scenario(id: &str, run_seed: u64) -> Result<Scenario, String> {
             }
             clients[c].push(op);
             schedule.push(c as u8);
+            continue;
+        }
+        if helper_replaced && rng.chance(1, 3) {
+            // sites in the replaced helper: instruction indices of `helper_body`
+            let api = *rng.pick(&Api::MODULE);
+            let mut sites = vec![];
+            for _ in 0..rng.range(1, 2) {
+                let mode = *rng.pick(&p.modes);
+                let cands: &[u32] = match mode {
+                    Mode::Before => &[3, 4, 5, 6, 7, 9, 10, 11, 12],
+                    Mode::After => &[3, 4, 5, 6, 9, 10, 11, 12],
+                    Mode::SemanticAfter => &[2, 7],
+                    Mode::BlockEntry | Mode::BlockExit => &[2],
+                    Mode::FuncEntry | Mode::FuncExit => &[0],
+                    _ => &[],
+                };
+                if let Some(instr) = rng.pick_opt(cands) {
+                    let magic = st.probe_magic();
+                    sites.push(Site { instr: *instr, mode, body: probe_body(magic), magic, tag: None, clear: false });
+                }
+            }
+            if !sites.is_empty() {
+                clients[c].push(Op::Inject { func: F_HELPER, api, sites });
+                schedule.push(c as u8);
+            }
             continue;
         }
         let fi = rng.below(n_funcs);
